@@ -570,6 +570,36 @@ def enum_frame_bodies(depth, rng=None, sample=None):
     return [frame_body(seq, term) for seq, term in combos], combos
 
 
+def arm_chain_bodies():
+    """Multi-arm statements in which every arm independently terminates or falls through, code after the statement:
+    if with 0..4 elif clauses (with and without else), try with 1..3 handlers (x else x finally), match with 1..4 cases.
+    (A dropped or mis-linked arm changes which of these have live code after them.)"""
+    import itertools
+    out = []
+
+    def arm(t, i):
+        return [_S()] if not t else [_S(), ('return' if i % 2 == 0 else 'raise', 0)]
+    for n in range(0, 5):
+        for has_else in (False, True):
+            k = n + 1 + (1 if has_else else 0)
+            for pat in itertools.product((False, True), repeat=k):
+                then = arm(pat[0], 0)
+                elifs = [(0, arm(pat[1 + i], 1 + i)) for i in range(n)]
+                els = arm(pat[-1], k - 1) if has_else else None
+                out.append([('if', 0, then, elifs, els), _S()])
+    for h in range(1, 4):
+        for pat in itertools.product((False, True), repeat=1 + h):
+            for els in (None, False, True):
+                for fin in (False, True):
+                    body = arm(pat[0], 0)
+                    hs = [(0, arm(pat[1 + i], 1 + i)) for i in range(h)]
+                    out.append([('try', 0, body, hs, None if els is None else arm(els, 1), [_S()] if fin else None), _S()])
+    for c in range(1, 5):
+        for pat in itertools.product((False, True), repeat=c):
+            out.append([('match', 0, [(0, arm(pat[i], i)) for i in range(c)]), _S()])
+    return out
+
+
 def routing_frame_bodies():
     """Depth-3 compositions in which a break/continue has to be routed: at least one loop frame and one try with a finally."""
     b, c = enum_frame_bodies(3)
